@@ -41,7 +41,7 @@ func genC17World(r *Rng) *Plan {
 		p.Steps = append(p.Steps, Step{Op: "login", B: string(rune('a' + i)), User: u, Host: cfg.Routes[r.Intn(nUp)].From, Target: "/"})
 	}
 	idpBack := map[string]string{"okta": OktaHost, "google": GoogleAPI}[cfg.Provider]
-	n := r.Range(6, 24)
+	n := r.Steps(6, 24)
 	faulting := false
 	for i := 0; i < n; i++ {
 		switch r.Intn(9) {
